@@ -619,19 +619,26 @@ Proof.
   (* an old promise whose trip has not ended is still there *)
   assert (Hsurv : forall m, (m < MaxPromises)%nat -> p_ts (getp b m) <> 0 -> now <= p_te (getp b m) ->
             exists m', (m' < MaxPromises)%nat /\ core (getp b' m') = core (getp b m)).
-  { intros m Hm Hne Hle. eapply promise_of_trip_in_progress_not_dropped; eauto. }
+  { intros m Hm Hne Hle.
+    exact (promise_of_trip_in_progress_not_dropped mx b ts te (c_dist c) tr now (di_pred di) pp m Hmx Hnow0 Ctmax HI Ep Hm Hne Hle). }
+  assert (Hsurv2 : forall m, (m < MaxPromises)%nat -> p_ts (getp b m) <> 0 -> now <= p_te (getp b m) ->
+            exists m', (m' < MaxPromises)%nat /\ m' <> idx /\ core (getp b' m') = core (getp b m)).
+  { intros m Hm Hne Hle. destruct (Nat.lt_ge_cases m idx) as [L|L].
+    - exists m. split; [exact Hm|]. split; [lia|apply Hlo, L].
+    - destruct (Nat.eq_dec m (MaxPromises - 1)) as [->|Hn9]; [destruct (Hdrop Hne); lia|].
+      exists (S m). split; [unfold MaxPromises in *; lia|]. split; [lia|]. apply Hhi; [exact L|unfold MaxPromises in *; lia]. }
   (* the new journey *)
   set (jo := out_journey c).
   destruct (day_of_build ts (c_r c) (c_dur c) (c_from c) (c_to c) (dist (c_from c) (c_to c)) ltac:(unfold ts; apply Z_mod_mult) Cdraw)
     as (B1 & B2 & B3 & B4 & B5 & B6 & B7 & B8).
   assert (Hjd : jday jo = c_day c).
-  { unfold jday, jo, out_journey. cbn [j_flight]. rewrite B4. unfold ts, SecondsInDay. apply Z_div_mult. lia. }
+  { unfold jday, jo, out_journey. cbn [j_flight]. fold ts. rewrite B4. unfold ts, SecondsInDay. apply Z_div_mult. lia. }
   assert (Hnewts : p_ts (getp b' idx) = ts /\ p_te (getp b' idx) = te /\ p_trav (getp b' idx) = tr).
   { unfold core in Hcore. injection Hcore as E1 E2 _ E4. auto. }
   destruct Hnewts as (N1 & N2 & N3).
   assert (Hofo : OutFor jo (getp b' idx)).
-  { unfold OutFor, jo, out_journey. cbn [j_flight j_out j_len]. fold jo. rewrite N1, N2, N3, B5, B6, B7, B8.
-    fold (out_journey c). fold jo. rewrite Hjd. unfold ts, te, tr in *. repeat split; auto; try lia. }
+  { unfold OutFor. cbn zeta. rewrite N1, N2, N3, Hjd. unfold jo, out_journey. cbn [j_flight j_out j_len]. fold ts.
+    rewrite B5, B6, B7, B8. unfold te, tr. pose proof Croute as (R1 & R2 & R3 & R4). repeat split; auto; lia. }
   split.
   - (* the links between journeys and promises *)
     constructor.
@@ -660,25 +667,23 @@ Proof.
       assert (Hclash : exists m, (m < MaxPromises)%nat /\ p_ts (getp b m) <> 0 /\ now <= p_te (getp b m) /\
                  p_ts (getp b m) <= ts <= p_te (getp b m)).
       { destruct (j_out j) eqn:Ej2.
-        - destruct (l_j2p _ _ _ HL j Hj Ej2 Hdj) as (i & Hi & Hne & O1 & O2 & O3 & _).
+        - destruct (l_j2p _ _ _ HL j Hj Ej2 Hdj) as (i & Hi & Hne & O1 & O2 & O3 & _ & _ & _ & _ & _ & _ & _ & O11 & _).
           exists i. split; [exact Hi|]. split; [exact Hne|]. rewrite O3, O2, Ej. fold ts.
           unfold now, ts, SecondsInDay in *. split; lia.
         - destruct HP as [HH|HA].
           + destruct HH as (_ & _ & _ & _ & _ & Hall). rewrite (Hall j Hj Hdj) in Ej2. discriminate.
           + destruct HA as (x & rest & qs & len & _ & _ & _ & _ & [(i & Hi & Ets & Ete & _) Hday Hpos _ _ _ _ _ Hl1 _ _ _] & Hq1 & Hq2 & _ & Hall).
-            destruct (Hall j Hj Hdj Ej2) as (I1 & I2 & I3 & _).
-            exists i. split; [exact Hi|]. split; [lia|]. rewrite Ets, Ete.
+            destruct (Hall j Hj Hdj Ej2) as (I1 & I2 & I3 & _). fold b in Ets, Ete.
+            exists i. split; [exact Hi|]. split; [rewrite Ets; lia|]. rewrite Ets, Ete.
             assert (Edj : jday j = qs / SecondsInDay + len).
             { unfold jday, day_of. unfold SecondsInDay in *.
               assert (E : qs = 86400 * (qs / 86400)) by (pose proof (Z_div_mod_eq_full qs 86400); lia).
-              apply Z.div_unique with (fstart (j_flight j) - (qs + len * 86400)); lia. }
+              symmetry. apply Z.div_unique with (fstart (j_flight j) - (qs + len * 86400)); [left; lia|lia]. }
             unfold ts. rewrite <- Ej, Edj.
             assert (E : qs = 86400 * (qs / 86400)) by (unfold SecondsInDay in Hday; pose proof (Z_div_mod_eq_full qs 86400); lia).
             unfold now, SecondsInDay in *. split; lia. }
       destruct Hclash as (m & Hm & Hne & Hle & Hov).
-      destruct (Hsurv m Hm Hne Hle) as (m' & Hm' & Em'). unfold core in Em'. injection Em' as E1 E2 _ _.
-      assert (Hneq : m' <> idx).
-      { intros ->. rewrite N1 in E1. rewrite N2 in E2. lia. }
+      destruct (Hsurv2 m Hm Hne Hle) as (m' & Hm' & Hneq & Em'). unfold core in Em'. injection Em' as E1 E2 _ _.
       destruct (book_disjoint b' m' idx HI' Hm' Hidx Hneq ltac:(rewrite E1; exact Hne) ltac:(rewrite N1; lia)) as [D|D];
         rewrite ?E1, ?E2, ?N1, ?N2 in D; lia.
   - (* the phase *)
@@ -694,7 +699,8 @@ Proof.
       exists x, rest, qs, len. cbn [t_hist t_kept t_book set_book].
       split; [exact El|]. split; [exact Hx|]. split; [exact Hstop|]. split; [exact Hoc|]. split.
       * destruct HT as [(i & Hi & Ets & Ete & Etr) T2 T3 T4 T5 T6 T7 T8 T9 T10 T11 T12].
-        destruct (Hsurv i Hi ltac:(lia) ltac:(rewrite Ete; unfold now, SecondsInDay in *; lia)) as (m' & Hm' & Em').
+        fold b in Ets, Ete, Etr.
+        destruct (Hsurv i Hi ltac:(rewrite Ets; lia) ltac:(rewrite Ete; unfold now, SecondsInDay in *; lia)) as (m' & Hm' & Em').
         unfold core in Em'. injection Em' as E1 E2 _ E4.
         constructor; auto. exists m'. rewrite E1, E2, E4. auto.
       * split; [exact Hq1|]. split; [exact Hq2|]. split.
